@@ -1,7 +1,7 @@
 import PdModel.Schedule
 import PdModel.Proto
-/-! Line protocol: `schedule run <order ids> <mod> <mod> …` with mod = `<p|x>:<import ids or ->`
-(p = parses, x = does not). Answer: the event log and the final states.
+/-! Line protocol: `schedule run <order ids> <mod> <mod> …` with mod = `<p|x>:<import ids or ->:<ids of the packages
+above, outermost first, or ->` (p = parses, x = does not; the third part may be left out = none). Answer: the event log and the final states.
 `schedule exit <W 0|1> <violations> <parseErrors>` → exit status. -/
 namespace Schedule
 
@@ -9,7 +9,11 @@ def parseMod (tok : String) : Option Mod :=
   match tok.splitOn ":" with
   | [p, imps] => do
     let imps ← Proto.natList imps
-    if p == "p" then some ⟨true, imps⟩ else if p == "x" then some ⟨false, imps⟩ else none
+    if p == "p" then some ⟨true, imps, []⟩ else if p == "x" then some ⟨false, imps, []⟩ else none
+  | [p, imps, ab] => do
+    let imps ← Proto.natList imps
+    let ab ← Proto.natList ab
+    if p == "p" then some ⟨true, imps, ab⟩ else if p == "x" then some ⟨false, imps, ab⟩ else none
   | _ => none
 
 def showSt : PState → String
